@@ -121,6 +121,12 @@ mutual
       else if t == "bytes" then some (.bytes, ts)
       else if t == "raw" then some (.raw, ts)
       else if t == "any" then some (.any, ts)
+      else if t.startsWith "TreeT" then (natOf? (dropS t 5)).map fun d => (treeTTy d, ts)
+      else if t.startsWith "TreeP" then (natOf? (dropS t 5)).map fun d => (treePTy d, ts)
+      else if t.startsWith "Tree" then (natOf? (dropS t 4)).map fun d => (treeTy d, ts)
+      else if t.startsWith "Link" then (natOf? (dropS t 4)).map fun d => (linkTy d, ts)
+      else if t.startsWith "MA" then (natOf? (dropS t 2)).map fun d => (maTy d, ts)
+      else if t.startsWith "MB" then (natOf? (dropS t 2)).map fun d => (mbTy d, ts)
       else if t == "S" then
         match parseTy f ts with
         | some (e, ts) => some (.slice e, ts)
